@@ -36,6 +36,10 @@ func c05Rules(p *core.Prog, r *core.Run) {
 
 	// --- P1
 	clientHelloGrammar(p, r, "C05.P1")
+	// the hello that is passed on is the record as it arrived: whole
+	if rr := p.Func(Ech, "readRecord"); rr != nil {
+		fullReads(p, r, rr, "C05.P1.record")
+	}
 
 	// --- P2: who may write a clientHello
 	chType := m.fCH["Extensions"]
